@@ -27,7 +27,7 @@ RULE = (
     "wrapped-row layout (line width 1..n_e-1); every single header corruption (counts swapped / +-1, range lines exchanged, each "
     "bound shifted by the extent, z-range shifted, each header line missing). After every call the files opened by the function "
     "must be closed. Non-trivial: at least one finite cell; distinct = distinct file text x dtype x source."
-    " Added axes: wrapped rows, eight formatting styles incl. blank lines, three input sources, open-handle counter, regions at projected-coordinate magnitudes, header faults incl. swapped zMin / zMax, also on wrapped bodies."
+    " Added axes: wrapped rows, eight formatting styles incl. blank lines, three input sources, open-handle counter, regions at projected-coordinate magnitudes, header faults incl. swapped zMin / zMax, also on wrapped bodies; body rows with a value missing or added; header numbers without a leading zero."
 )
 ASSUMPTIONS = ["the reference writer follows verde's documented header convention: id / n_northing n_easting / south north / west east / zmin zmax",
                "for the all-blank file (header range undefined) both a correct load and a refusal are accepted"]
@@ -80,6 +80,11 @@ def cases(tier, seed):
                     # wrapped rows that skips the range validation)
                     for width in range(1, ne):
                         yield dict(kind="fault", nn=nn, ne=ne, region=ri, fault=fault, blank=[], src="stringio", wrap=width)
+                # body faults: a row with one value missing / one value too many (the file must be refused whichever value it is), and
+                # header numbers written without a leading zero (".5", "-.25": legal, the file must load) - round 8, seeds C19-15 / C19-16
+                for fault in ["short_row%d" % r_ for r_ in range(nn)] + ["short_first_token%d" % r_ for r_ in range(1, nn)] + ["long_row%d" % (nn - 1)] + ["hdr_noleadzero"]:
+                    for src in ("stringio", "path"):
+                        yield dict(kind="fault", nn=nn, ne=ne, region=ri, fault=fault, blank=[], src=src)
 
 
 # ---------------------------------------------------------------- reference writer / reader
@@ -322,7 +327,26 @@ def run(case, rec):
                 del head[int(fault[4:])]
             return head
 
-        text = _write(nn, ne, region, vals, set(case["blank"]), SENT[0], 0, header=corrupt, wrap=case.get("wrap"))
+        if fault == "hdr_noleadzero":
+            region = [-0.25 - 0.5 * case["region"], 0.5, 0.125, 0.875 + case["region"]]
+            vals = [[v_ * 0.001 for v_ in r_] for r_ in vals]
+            nolead = lambda t_: ("-" + t_[2:]) if t_.startswith("-0.") else (t_[1:] if t_.startswith("0.") else t_)
+            hdrfmt = lambda head, h: head[:2] + [" ".join(nolead("%.17g" % float(t_)) for t_ in ln_.split()) for ln_ in head[2:]]
+            text = _write(nn, ne, region, vals, set(), SENT[0], 0, header=hdrfmt)
+        else:
+            text = _write(nn, ne, region, vals, set(case["blank"]), SENT[0], 0, header=corrupt, wrap=case.get("wrap"))
+        if fault.startswith(("short_row", "short_first_token", "long_row")):
+            ls_ = text.split("\n")
+            r_ = 5 + int(fault.rstrip("0123456789") and fault[len(fault.rstrip("0123456789")):])
+            toks_ = ls_[r_].split(" ")
+            if fault.startswith("short_row"):
+                toks_ = toks_[:-1]
+            elif fault.startswith("short_first_token"):
+                toks_ = toks_[1:]
+            else:
+                toks_ = toks_ + ["3.0"]
+            ls_[r_] = " ".join(toks_)
+            text = "\n".join(ls_)
         try:
             exp = ref_read(text)
         except ValueError as exc:
